@@ -15,3 +15,159 @@ Proof. destruct sa as [[|]|]; vm_compute; reflexivity. Qed.
 
 Lemma lexer_new_header sa tail : lexer_new (xml_header sa ++ tail) = mk (xml_header sa ++ tail) 1 None.
 Proof. destruct sa as [[|]|]; reflexivity. Qed.
+
+Ltac norm_in H := repeat (first [rewrite <- app_assoc in H | progress (cbn [app] in H)]).
+Ltac norm_goal := repeat (first [rewrite <- app_assoc | progress (cbn [app])]).
+
+Section File.
+Variable strict : bool.
+Variable T : tables.
+Variable tab_el tab_at tab_en : nametab.
+Variable check_fn : N -> list N -> res bool.
+Variable float_fmt : N -> list N.
+Variable float_parse : list N -> option N.
+Variable ver : N.
+
+Notation SER := (ser_elem T tab_el tab_at tab_en float_fmt).
+Notation SAT := (ser_attrs tab_at tab_en float_fmt).
+Notation PL := (pe_loop strict T tab_el tab_at tab_en check_fn float_parse).
+Notation PE := (parse_element strict T tab_el tab_at tab_en check_fn float_parse).
+Notation CANON := (Canon T tab_el tab_at tab_en check_fn float_fmt float_parse ver).
+Notation CHILDREN := (ChildrenOk T tab_el tab_at tab_en check_fn float_fmt float_parse ver).
+
+(* a canonical root: as Canon, but the attributes of the root are read while the file version is still the placeholder
+   Autosar_4_0_1, and they must be the header attributes from which parse_file_header derives `ver` silently *)
+Inductive RootCanon : etree -> Prop :=
+| root_canon e v401 nm attrs content mode named :
+    elem T (autosar_element T) = Val e -> version_of_ident "Autosar_4_0_1" = Some v401 ->
+    ElemNameOk tab_el (ed_name e) nm ->
+    AttrsOk T tab_at tab_en check_fn float_fmt float_parse v401 (autosar_element T, ed_type e) attrs ->
+    (forall st, parse_file_header strict tab_at attrs st = Val (Ret tt (Parser.set_version st ver))) ->
+    content_mode T (autosar_element T, ed_type e) = Val mode -> ShapeOk mode content ->
+    CHILDREN (autosar_element T, ed_type e) mode [] [] content ->
+    is_named_in_version T (autosar_element T, ed_type e) ver = Val named ->
+    (named = true -> existsb (is_short T) content = true) ->
+    RootCanon (ENode (ed_name e) (autosar_element T, ed_type e) attrs content None).
+
+Lemma verify_end_ok st : at_rest st [] -> exists st', verify_end_of_input strict st = Val (Ret tt st') /\ same_core st st'.
+Proof.
+  intros [R D]. unfold verify_end_of_input, next, lex_fuel. destruct (p_lex st) as [rest line dd] eqn:EL. cbn [l_rest l_deferred] in *. subst.
+  cbn. eexists. split; [reflexivity|]. unfold same_core. cbn. rewrite EL. auto.
+Qed.
+
+Theorem file_roundtrip root sa body : RootCanon root -> SER root 0 false = Val body ->
+  exists st, load strict T tab_el tab_at tab_en check_fn float_parse (xml_header sa ++ body) = Val (Ret root st) /\
+             p_warnings st = [] /\ p_version st = ver.
+Proof.
+  intros RC SB. destruct RC as [e v401 nm attrs content mode named EE V401 EN AO HDR CM SH CK NV NAMED].
+  set (rt := (autosar_element T, ed_type e)) in *. set (an := ed_name e) in *.
+  pose proof EN as (TS & CN & FB).
+  destruct (clean_name_props nm CN) as (NE & FN).
+  assert (FWS : Forall (fun x => is_ws x = false) nm) by (eapply Forall_impl; [|exact FN]; cbn; tauto).
+  assert (F62 : Forall (fun x => x <> 62) nm) by (eapply Forall_impl; [|exact FN]; cbn; tauto).
+  destruct (name_head check_fn float_fmt float_parse ver nm CN) as (c1 & tl & ENM & H47 & H63 & H33).
+  destruct AO as [AF AREQ]. pose proof (conj AF AREQ) as AO.
+  destruct (ser_attrs_total T tab_at tab_en check_fn float_fmt float_parse v401 rt attrs AF) as (ats & SA & ASH & _).
+  destruct (ser_attrs_bytes T tab_at tab_en check_fn float_fmt float_parse v401 rt attrs ats AF SA) as (A62 & ALAST).
+  assert (INNER : Forall (fun x => x <> 62) (nm ++ ats)) by (apply Forall_app; auto).
+  assert (SPLIT : split_tag (nm ++ ats) = (nm, skipn 1 ats)) by (apply split_tag_name; assumption).
+  assert (ENM' : nm ++ ats = c1 :: (tl ++ ats)) by (rewrite ENM; reflexivity).
+  set (bs := xml_header sa ++ body). set (n := List.length bs).
+  assert (LB : (List.length body <= n)%nat) by (unfold n, bs; rewrite app_length; lia).
+  unfold load. rewrite V401, EE. unfold parse_arxml. fold n.
+  set (st0 := init_pstate bs v401 an).
+  (* 1. the xml header *)
+  assert (E0 : exists st1, pnext st0 = Val (Ret (EvHeader sa) st1) /\ at_rest st1 body /\ p_version st1 = v401 /\ p_warnings st1 = []).
+  { unfold pnext, next, lex_fuel, st0, init_pstate. cbn [p_lex]. unfold bs. rewrite lexer_new_header. cbn [l_rest mk].
+    pose proof (lex_header sa body (List.length (xml_header sa ++ body)) 1) as G. rewrite G.
+    eexists. split; [reflexivity|]. unfold at_rest. cbn. auto. }
+  destruct E0 as (st1 & E1 & AR1 & PV1 & PW1).
+  rewrite (mbind_ret_step _ _ _ _ _ E1).
+  rewrite (mbind_ret_step _ _ st1 tt (set_standalone st1 sa) eq_refl).
+  set (st2 := set_standalone st1 sa).
+  assert (AR2 : at_rest st2 body) by exact AR1.
+  destruct (ser_shape T tab_el tab_at tab_en float_fmt an rt attrs content nm mode ats 0%nat false body TS SA CM SH SB)
+    as [[EC EB]|(NEC & items & wsc & i' & il' & WSC & IS & TX & EB)]; cbv zeta in EB.
+  - (* <AUTOSAR .../> *)
+    subst content body. norm_in AR2.
+    assert (AR2' : at_rest st2 (newline_indent 0 ++ 60 :: (nm ++ ats) ++ 47 :: 62 :: [])).
+    { norm_goal. exact AR2. }
+    destruct (pnext_of_lex st2 (newline_indent 0) ((nm ++ ats) ++ 47 :: 62 :: []) (EvBegin nm (skipn 1 ats)) [] (Some nm) AR2' eq_refl)
+      as (st3 & E3 & R3 & D3 & V3 & W3).
+    { intros f0 line'. do 2 eexists.
+      rewrite (lex_empty_tag f0 (nm ++ ats) [] line' c1 (tl ++ ats) ENM' H47 H63 H33 INNER). rewrite SPLIT. reflexivity. }
+    rewrite (mbind_ret_step _ _ _ _ _ E3).
+    rewrite (mbind_ret_step _ _ st3 (@None (list N), EvBegin nm (skipn 1 ats)) st3 eq_refl). cbv beta iota.
+    unfold name_of at 1. rewrite FB. change (mbind (lift (Val (Some an))) ?k0 st3) with (k0 (Some an) st3). cbv beta.
+    unfold autosar_name. rewrite EE. change (mbind (mbind (lift (Val e)) ?g) ?k0 st3) with (k0 (ed_name e) st3). cbv beta iota.
+    fold an. rewrite N.eqb_refl.
+    unfold root_type, et_new. rewrite EE. cbn [bind]. fold rt. change (mbind (lift (Val rt)) ?k0 st3) with (k0 rt st3). cbv beta.
+    destruct (attrs_roundtrip_lexed strict T tab_at tab_en check_fn float_fmt float_parse v401 rt attrs st3 ats AO
+                ltac:(cbn in V3; congruence) SA) as (c & PA).
+    rewrite (mbind_ret_step _ _ _ _ _ PA). rewrite (mbind_ret_step _ _ _ _ _ (HDR _)).
+    set (st5 := Parser.set_version (set_compat st3 c) ver).
+    assert (EPE : exists st6, PE (S n) (S n) an rt attrs None [] [] st5 = Val (Ret (ENode an rt attrs [] None) st6) /\ adv st5 st6 []).
+    { rewrite PE_S.
+      destruct (deferred_end_step strict T tab_el tab_at tab_en check_fn float_parse ver (PE n (S n)) n an rt attrs None [] [] [] false [] st5 nm named
+                  EN NV ltac:(intros Hn; specialize (NAMED Hn); discriminate NAMED) D3 eq_refl) as (st6 & E6 & A6).
+      exists st6. split; [exact E6|]. change (l_rest (p_lex st5)) with (l_rest (p_lex st3)) in A6. rewrite R3 in A6. exact A6. }
+    destruct EPE as (st6 & E6 & (AR6 & V6 & W6)).
+    rewrite (mbind_ret_step _ _ _ _ _ E6).
+    destruct (verify_end_ok st6 AR6) as (st7 & E7 & (C7a & C7b & C7c)).
+    rewrite (mbind_ret_step _ _ _ _ _ E7).
+    exists st7. split; [reflexivity|]. split.
+    + rewrite C7c, W6. cbn [p_warnings Parser.set_version set_compat st5]. rewrite W3. exact PW1.
+    + rewrite C7b, V6. reflexivity.
+  - (* <AUTOSAR ...> content </AUTOSAR> *)
+    subst body. norm_in AR2.
+    assert (AR2' : at_rest st2 (newline_indent 0 ++ 60 :: (nm ++ ats) ++ 62 :: items ++ closing wsc nm ++ [])).
+    { norm_goal. rewrite app_nil_r. exact AR2. }
+    assert (LASTI : last (nm ++ ats) 0 <> 47).
+    { destruct ats as [|a0 ats'].
+      - rewrite app_nil_r. destruct (exists_last NE) as (l0 & x & EL). rewrite EL, last_last. rewrite EL in FN.
+        apply Forall_app in FN as [_ FX]. inversion FX as [|? ? HX _]; subst. tauto.
+      - rewrite last_app_ne by discriminate. rewrite ALAST by discriminate. discriminate. }
+    destruct (pnext_of_lex st2 (newline_indent 0) ((nm ++ ats) ++ 62 :: items ++ closing wsc nm ++ []) (EvBegin nm (skipn 1 ats))
+                (items ++ closing wsc nm ++ []) None AR2' eq_refl) as (st3 & E3 & R3 & D3 & V3 & W3).
+    { intros f0 line'. do 2 eexists.
+      rewrite (lex_begin_tag f0 (nm ++ ats) (items ++ closing wsc nm ++ []) line' c1 (tl ++ ats) ENM' H47 H63 H33 INNER LASTI).
+      rewrite SPLIT. reflexivity. }
+    rewrite (mbind_ret_step _ _ _ _ _ E3).
+    rewrite (mbind_ret_step _ _ st3 (@None (list N), EvBegin nm (skipn 1 ats)) st3 eq_refl). cbv beta iota.
+    unfold name_of at 1. rewrite FB. change (mbind (lift (Val (Some an))) ?k0 st3) with (k0 (Some an) st3). cbv beta.
+    unfold autosar_name. rewrite EE. change (mbind (mbind (lift (Val e)) ?g) ?k0 st3) with (k0 (ed_name e) st3). cbv beta iota.
+    fold an. rewrite N.eqb_refl.
+    unfold root_type, et_new. rewrite EE. cbn [bind]. fold rt. change (mbind (lift (Val rt)) ?k0 st3) with (k0 rt st3). cbv beta.
+    destruct (attrs_roundtrip_lexed strict T tab_at tab_en check_fn float_fmt float_parse v401 rt attrs st3 ats AO
+                ltac:(cbn in V3; congruence) SA) as (c & PA).
+    rewrite (mbind_ret_step _ _ _ _ _ PA). rewrite (mbind_ret_step _ _ _ _ _ (HDR _)).
+    set (st5 := Parser.set_version (set_compat st3 c) ver).
+    (* sizes: the fuel |bs|+1 is enough *)
+    destruct (items_size T tab_el tab_at tab_en check_fn float_fmt float_parse ver i' il' rt mode content [] [] items) as (SZ1 & SZ2 & SZ3);
+      [intros c0 b0 _ CA0 SB0; apply (canon_size_all T tab_el tab_at tab_en check_fn float_fmt float_parse ver c0 CA0 i' il' b0 SB0)|exact CK|exact IS|].
+    assert (LI : (List.length items <= n)%nat).
+    { unfold n, bs, closing. repeat (rewrite app_length || cbn [List.length]). lia. }
+    assert (EPE : exists st6, PE (S n) (S n) an rt attrs None [] [] st5 = Val (Ret (ENode an rt attrs content None) st6) /\ adv st5 st6 []).
+    { rewrite PE_S.
+      destruct (children_loop strict T tab_el tab_at tab_en check_fn float_fmt float_parse ver n (S n) (maxd content)
+                  (elem_step strict T tab_el tab_at tab_en check_fn float_fmt float_parse ver (maxd content) n (S n) ltac:(lia))
+                  an rt attrs nm mode named [] i' il' wsc EN CM NV WSC content [] [] false [] st5 (S n) items [] CK) as (st6 & E6 & A6).
+      { intros c0 HIn. split; [apply maxd_in; exact HIn|pose proof (maxw_in _ _ HIn); lia]. }
+      { exact IS. }
+      { exact TX. }
+      { unfold at_rest. change (p_lex st5) with (p_lex st3). rewrite R3, D3. auto. }
+      { reflexivity. }
+      { lia. }
+      { reflexivity. }
+      { exact NAMED. }
+      exists st6. cbn [app] in E6. split; [exact E6|exact A6]. }
+    destruct EPE as (st6 & E6 & (AR6 & V6 & W6)).
+    rewrite (mbind_ret_step _ _ _ _ _ E6).
+    destruct (verify_end_ok st6 AR6) as (st7 & E7 & (C7a & C7b & C7c)).
+    rewrite (mbind_ret_step _ _ _ _ _ E7).
+    exists st7. split; [reflexivity|]. split.
+    + rewrite C7c, W6. cbn [p_warnings Parser.set_version set_compat st5]. rewrite W3. exact PW1.
+    + rewrite C7b, V6. reflexivity.
+Qed.
+
+End File.
